@@ -4,8 +4,8 @@
 For each: (1) demo passes on the unmodified tree, (2) with the patch the library builds and the whole existing suite
 passes, (3) the demo fails with the patch.  Writes <seed-dir>/confirm.json.  The worktree and target dir are removed at the end."""
 import json, os, re, shutil, subprocess, sys, time
-WT = '/tmp/cw'
-TGT = '/tmp/cw-target'
+WT = os.environ.get('CONFIRM_WT', '/tmp/cw')
+TGT = WT + '-target'
 
 def sh(cmd, cwd=WT, timeout=3000):
     env = dict(os.environ, CARGO_TARGET_DIR=TGT, CARGO_NET_OFFLINE='true')
